@@ -38,7 +38,7 @@ IdParam(tx) == LET f == Fresh(tx) IN IF f # <<>> /\ f[1].id > lastId THEN f[1].i
 TxSet(tx) == {[id |-> t.id, rel |-> t.rel, resent |-> t.resent] : t \in Range(tx)}
 Acked(tx) == Flat([i \in 1..Len(tx) |-> tx[i].acked])
 
-StateOf(id) == IF id \in PendIds' THEN "p" ELSE IF id \in done' THEN "d" ELSE IF id \in failed' THEN "f" ELSE "?"
+StateOf(id) == IF id \in PendIds' \cup abandoned' THEN "p" ELSE IF id \in done' THEN "d" ELSE IF id \in failed' THEN "f" ELSE "?"
 ChkFut(fut) ==
     /\ Chk("futures:one per reliable send", {f[1] : f \in Range(fut)} = relIssued' /\ Len(fut) = Cardinality(relIssued'))
     /\ \A f \in Range(fut) : f[1] \in relIssued' =>
@@ -63,6 +63,7 @@ TReset == /\ IsEvent("Reset") /\ tid' = Rec.tid
           /\ seen' = <<>> /\ evN' = <<>> /\ rR' = <<>> /\ aR' = <<>> /\ dR' = <<>> /\ rU' = <<>> /\ dU' = <<>>
           /\ pend' = {} /\ done' = {} /\ failed' = {} /\ relIssued' = {} /\ ackedSince' = {} /\ xmits' = {}
           /\ ids' = <<>> /\ lastId' = -1 /\ subs' = [lv \in Levels |-> <<>>]
+          /\ alive' = "pending" /\ abandoned' = {} /\ epoch' = 0
           /\ out' = [NoOut EXCEPT !.calls = [lv \in Levels |-> <<>>]]
 
 TRecv == /\ IsEvent("Recv") /\ UNCHANGED tid
@@ -103,7 +104,14 @@ TSub == /\ IsEvent("Sub") /\ UNCHANGED tid
         /\ ChkStep
         /\ Chk("subscribe: nothing emitted", Rec.tx = <<>>)
         /\ ChkFut(Rec.fut)
-TNext == TReset \/ TRecv \/ TStray \/ TSendRel \/ TSendUnrel \/ TTick \/ TSub
+\* {"ev":"Alive","how":"handshake"|"bare"}: is_alive set True by the handshake / the driver uses a bare Circuit (first event)
+TAlive == /\ IsEvent("Alive") /\ UNCHANGED tid
+          /\ Env("pending", alive = "pending") /\ GoAlive
+          /\ ChkStep /\ Chk("handshake: nothing emitted", Rec.tx = <<>>) /\ ChkFut(Rec.fut)
+TDisconnect == /\ IsEvent("Disconnect") /\ UNCHANGED tid
+               /\ Env("not dead", alive # "dead") /\ Disconnect
+               /\ ChkStep /\ Chk("disconnect: nothing emitted", Rec.tx = <<>>) /\ ChkFut(Rec.fut)
+TNext == TAlive \/ TDisconnect \/ TReset \/ TRecv \/ TStray \/ TSendRel \/ TSendUnrel \/ TTick \/ TSub
 TraceSpec == TInit /\ [][TNext]_tvars
 TraceAccepted == PrintT("TRACE_REACHED " \o ToString(TLCGet("stats").diameter - 1) \o " OF " \o ToString(Len(TraceLog)))
 ====
